@@ -165,7 +165,9 @@ def run_tlc(module, cfg, files=None, workers=None, timeout=1800, simulate=None, 
     if vm:
         r.violation = vm.group(1)
         return r
-    raise Infra("TLC failed on %s/%s (exit %d):\n%s" % (module, cfg, p.returncode, out[-3000:] + p.stderr[-1000:]))
+    em = re.search(r"^Error: .*(?:\n.*){0,8}", out, re.M)
+    raise Infra("TLC failed on %s/%s (exit %d): %s\n...\n%s" % (module, cfg, p.returncode, (em.group(0)[:1500] if em else ""),
+                                                            out[-3000:] + p.stderr[-1000:]))
 
 
 # ------------------------------------------------------------------ real pipeline
